@@ -79,8 +79,21 @@ func vStubGenLiveSegHTTP(log *slog.Logger, vodFS fs.FS, a *asset, cfg *ResponseC
 	return createOutSeg(vodFS, a, cfg, segmentPart, nowMS)
 }
 
+// vStubCreateAudioSegNil stands in for createAudioSeg (file reads + mp4 decoding). It keeps the first thing the real
+// function does with the recipe: allocate room for (endTime-startTime)/frameDuration output frames - a recipe whose
+// frame count is absurd (wrapped arithmetic) makes the real allocation panic ("makeslice: cap out of range").
 func vStubCreateAudioSegNil(vodFS fs.FS, a *asset, recipe audioRecipe) (*mp4.MediaSegment, error) {
+	sampleDur := uint64(*recipe.rep.ConstantSampleDuration)
+	if recipe.endTime < recipe.startTime || (recipe.endTime-recipe.startTime)/sampleDur >= 1<<40 {
+		vModelPanic("makeslice: cap out of range (audio frame count of the recipe)")
+	}
 	return nil, nil
+}
+
+// vStubRunRecover: under symbolic execution panics are reported by the engine itself.
+func vStubRunRecover(f func()) bool {
+	f()
+	return false
 }
 
 func vHTTPServer(a *asset) *Server {
@@ -189,4 +202,144 @@ func vHTTPSeg(a *asset, repID string, mode, atoMode int) {
 		vAssert("C04.http.later-200-or-410", w.status == 200 || w.status == 410)
 	}
 	vReach("C04.http.end")
+}
+
+// ---- C08: URL-parameter robustness through the real request entry ----
+// One or two URL parameters, each any key of the configuration parser with a value from a class list (an arbitrary
+// 64-bit number, or literal boundary/malformed texts), then a media-segment / init-segment / BaseURL-indexed request.
+// Obligations: no runtime panic anywhere on the path (panics are reported), a deliberate status is written, and a
+// malformed value of a numeric parameter gives 400.
+
+type vURLKey struct {
+	key  string
+	kind int // 0 integer, 1 float, 2 flag, 3 literal list
+	lits []string
+}
+
+var vURLKeys = []vURLKey{
+	{"start", 0, nil}, {"ast", 0, nil}, {"stop", 0, nil}, {"startrel", 0, nil}, {"stoprel", 0, nil}, {"dur", 0, nil},
+	{"timeoffset", 1, nil}, {"init", 0, nil}, {"tsbd", 0, nil}, {"mup", 0, nil}, {"modulo", 0, nil},
+	{"tfdt", 2, nil}, {"cont", 2, nil}, {"periods", 0, nil}, {"xlink", 0, nil}, {"etp", 0, nil}, {"etpDuration", 0, nil},
+	{"insertad", 2, nil}, {"continuous", 2, nil}, {"segtimeline", 2, nil}, {"segtimelinenr", 2, nil}, {"peroff", 0, nil},
+	{"scte35", 0, nil}, {"utc", 3, []string{"direct-ntp", "keep", "keep-ntp", "bad", "", "head"}}, {"snr", 0, nil},
+	{"ato", 1, nil}, {"ltgt", 0, nil}, {"spd", 0, nil}, {"sidx", 2, nil}, {"segtimelineloss", 2, nil}, {"chunkdur", 1, nil},
+	{"timesubsstpp", 3, []string{"en", "en,sv", ""}}, {"timesubswvtt", 3, []string{"en", "en,sv", ""}},
+	{"timesubsdur", 0, nil}, {"timesubsreg", 0, nil},
+	{"statuscode", 3, []string{"[{cycle:30,rsq:0,code:404}]", "[{cycle:30}]", "[]", "", "[{x:1}]", "[{cycle:30,rsq:0,code:404,rep:V300}]", "[{cycle}]", "abc"}},
+	{"traffic", 3, []string{"u10d10", "", "5", "u0", "u10,d5u5", "x"}},
+	{"drm", 3, []string{"xyz", ""}}, {"eccp", 3, []string{"cbcs", "cenc", "xyz", ""}},
+	{"patch", 0, nil},
+	{"annexI", 3, []string{"a=1", "a", "", "a=1,b=2", "a=1=2"}},
+}
+
+var vIntLits = []string{"abc", "", "1.5", "-"}
+var vFloatLits = []string{"1.5", "abc", "", "-1.5", "0.001", "inf"} // "inf" only for ato
+
+// vURLParam returns "key_value/" for the tag-th parameter and whether the value is a malformed number.
+func vURLParam(tag string) (part string, malformed bool, key string) {
+	ki := vConc(vInt(tag+"_key", 0, len(vURLKeys)-1))
+	k := vURLKeys[ki]
+	switch k.kind {
+	case 0:
+		c := vConc(vInt(tag+"_cls", 0, len(vIntLits)))
+		if c == 0 {
+			return vStrf(k.key+"_%d/", vInt(tag+"_num", -(1<<33), 1<<40)), false, k.key
+		}
+		return k.key + "_" + vIntLits[c-1] + "/", true, k.key
+	case 1:
+		nl := len(vFloatLits) - 1
+		if k.key == "ato" {
+			nl++
+		}
+		c := vConc(vInt(tag+"_cls", 0, nl))
+		if c == 0 {
+			// float -> int conversions of out-of-range values are implementation-defined in Go: numbers up to 2^40
+			return vStrf(k.key+"_%d/", vInt(tag+"_fnum", -(1<<40), 1<<40)), false, k.key
+		}
+		l := vFloatLits[c-1]
+		return k.key + "_" + l + "/", l == "abc" || l == "", k.key
+	case 2:
+		return k.key + "_1/", false, k.key
+	}
+	c := vConc(vInt(tag+"_cls", 0, len(k.lits)-1))
+	return k.key + "_" + k.lits[c] + "/", false, k.key
+}
+
+func init() {
+	vHarnesses["vH_C08_url_one_seg"] = vH_C08_url_one_seg
+	vHarnesses["vH_C08_url_one_init"] = vH_C08_url_one_init
+	vHarnesses["vH_C08_url_one_audio"] = vH_C08_url_one_audio
+	vHarnesses["vH_C08_url_two_seg"] = vH_C08_url_two_seg
+	vHarnesses["vH_C08_url_baseurl"] = vH_C08_url_baseurl
+	vHarnesses["vH_C08_url_after_bad"] = vH_C08_url_after_bad
+	vHarnesses["vH_C08_url_before_bad"] = vH_C08_url_before_bad
+}
+
+func vH_C08_url_one_seg()   { vC08URL(1, 0) }
+func vH_C08_url_one_init()  { vC08URL(1, 1) }
+func vH_C08_url_one_audio() { vC08URL(1, 2) }
+func vH_C08_url_two_seg()   { vC08URL(2, 0) }
+func vH_C08_url_baseurl()   { vC08URL(1, 3) }
+
+// any parameter after / before a parameter whose value already failed to parse (the parser keeps going and only
+// reports the accumulated error at the end, so every later key runs with the converter in its error state)
+func vH_C08_url_after_bad()  { vC08URL(3, 0) }
+func vH_C08_url_before_bad() { vC08URL(4, 0) }
+
+var vBadParams = []string{"start_abc/", "tsbd_/", "ato_x/"}
+
+// target: 0 video media segment, 1 video init segment, 2 audio media segment, 3 media segment below a bu<k>/ BaseURL
+func vC08URL(nParams, target int) {
+	a := vAsset_testpic_2s()
+	vPrepareRegexps(a)
+	now := vInt("now1", 0, 1<<42)
+	segID := vInt("segID", 0, 1<<30) // later segments: 64-bit overflow of time x timescale (outside every claim)
+	p1, bad1, k1 := vURLParam("p1")
+	params := p1
+	malformed := bad1
+	twoKeysSame := false
+	if nParams == 3 || nParams == 4 {
+		bad := vBadParams[vConc(vInt("bad", 0, len(vBadParams)-1))]
+		if nParams == 3 {
+			params = bad + p1
+		} else {
+			params = p1 + bad
+		}
+		malformed = true
+	}
+	if nParams == 2 {
+		p2, bad2, k2 := vURLParam("p2")
+		params = vStrf("%d", 0)[:0] + p1 + p2
+		malformed = bad1 || bad2
+		twoKeysSame = k1 == k2
+	}
+	_ = twoKeysSame
+	var path string
+	switch target {
+	case 0:
+		vStubRep, vStubSegID = a.Reps["V300"], segID
+		path = "/livesim2/" + params + vStrf("testpic_2s/V300/%d.m4s", segID)
+	case 1:
+		vStubRep, vStubSegID = nil, 0
+		path = "/livesim2/" + params + "testpic_2s/V300/init.mp4"
+	case 2:
+		vStubRep, vStubSegID = a.Reps["A48"], segID
+		path = "/livesim2/" + params + vStrf("testpic_2s/A48/%d.m4s", segID)
+	case 3:
+		vStubRep, vStubSegID = a.Reps["V300"], segID
+		bu := vInt("bu", 0, 1<<62)
+		path = "/livesim2/traffic_u10d10,d5u5/" + params + vStrf("testpic_2s/bu%d/V300/%d.m4s", bu, segID)
+	}
+	s := vHTTPServer(a)
+	var w *vHW
+	crashed := vRunRecover(func() { w = vHTTPGet(s, path, now) })
+	vAssert("C08.url.no-crash", !crashed)
+	if crashed {
+		return
+	}
+	vAssert("C08.url.answered", w.status != 0)
+	if malformed {
+		vAssert("C08.url.malformed-number-400", w.status == 400)
+	}
+	vReach("C08.url.end")
 }
